@@ -23,13 +23,38 @@ func setupTeardownCallers(c *core.Ctx) []ssa.CallInstruction {
 			}
 			// a function-typed field of the active scenario, possibly grouped with the setup handle in a struct it holds
 			if fld := an.FieldIn(call.Common().Value, workersPkg, "ActiveScenario"); fld != nil {
-				if _, isSig := fld.Type().Underlying().(*types.Signature); isSig {
+				if sig, isSig := fld.Type().Underlying().(*types.Signature); isSig && sig.Params().Len() == 0 && sig.Results().Len() == 0 && holdsTeardown(c, fld) {
 					out = append(out, call)
 				}
 			}
 		}
 	}
 	return out
+}
+
+// holdsTeardown: the func() field is the one the handle constructor's teardown is stored in (the second result of
+// the call that made the handle) — not an optional hook that happens to have the same shape.
+func holdsTeardown(c *core.Ctx, fld *types.Var) bool {
+	stores, fromCtor := 0, 0
+	for _, fn := range c.AllFuncs {
+		if !core.InModule(fn) {
+			continue
+		}
+		an.Instrs(fn, func(in ssa.Instruction) {
+			st, ok := in.(*ssa.Store)
+			if !ok || !an.SameField(an.FieldOfAddr(st.Addr), fld) {
+				return
+			}
+			stores++
+			if ex, isEx := an.Strip(st.Val).(*ssa.Extract); isEx && ex.Index == 1 {
+				if call, isCall := ex.Tuple.(*ssa.Call); isCall && an.Callee(call) != nil && core.RelPkg(an.Callee(call)) == "pkg/f1/testing" {
+					fromCtor++
+				}
+			}
+		})
+	}
+	// stored from the constructor, or (handle grouped differently) not stored by plain assignment at all
+	return fromCtor > 0 || stores == 0
 }
 
 func c06(c *core.Ctx, r *core.Report) {
